@@ -268,7 +268,32 @@ func (w *World) consume(op Op, ch <-chan int) {
 	e := w.E
 	st := e.Sub(op.Tok)
 	if op.Stall {
-		return // never reads
+		t := e.Tok(op.Tok)
+		t.mu.Lock()
+		gate := t.ConsGate
+		t.mu.Unlock()
+		if gate == nil {
+			return // never reads
+		}
+		// reads nothing until the scenario opens the gate, then drains
+		e.S.Go("cons-"+strconv.Itoa(op.Tok), func() {
+			select {
+			case <-gate:
+			case <-e.Done:
+				return
+			}
+			for v := range ch {
+				st.mu.Lock()
+				st.Received = append(st.Received, v)
+				st.mu.Unlock()
+			}
+			st.mu.Lock()
+			st.Closed = true
+			st.ClosedAt = e.S.Step()
+			st.mu.Unlock()
+			simrt.Rec("subclosed", strconv.Itoa(op.Tok), "", 0)
+		})
+		return
 	}
 	e.S.Go("cons-"+strconv.Itoa(op.Tok), func() {
 		n := 0
